@@ -57,6 +57,8 @@ def run(ctx):
                    "decrypt_packet Ok; its fields are private; frames are read only from PlainPacket::body()")
     ctx.rule("R2", "sampling-guard agreement: the reader accepts exactly payloads >= 20 bytes (4 + 16-byte sample), the minimum the writer guarantees")
     ctx.rule("R3", "no key-state mutation before authentication in decrypt_short_packet")
+    ctx.rule("R5", "a key update replaces both directions together: OneRttPacketKeys::update toggles the phase and installs the send key "
+                   "and the receive key of the same generation (both taken from one next_packet_keys() result) on every path")
     ctx.rule("R4", "a key update on receipt happens only for a key phase that differs from the current one AND for which no key "
                    "is retained: the previous generation's key survives late (reordered) packets of the old phase")
 
@@ -136,6 +138,16 @@ def run(ctx):
                                        field_writes(prog, "OneRttPacketKeys", "remote")):
             if not b.short.endswith("::new"):
                 writers.add(b.id)
+        # indexed writes (`self.remote[i] = ..`) and mutation through `&mut self.cur_phase` handed to a call
+        for b in prog.bodies.values():
+            if b.crate != "qbase" or b.kind in ("const", "promoted") or b.short.endswith("::new"):
+                continue
+            for (i, j, p, rv, line) in b.assigns():
+                if any(place_has_field(p, "OneRttPacketKeys", f) for f in ("cur_phase", "local", "remote")):
+                    writers.add(b.id)
+                if rv[0] == "ref" and len(rv) > 2 and rv[1] in ("mut", "Mut", "mutable") and \
+                        any(place_has_field(rv[2], "OneRttPacketKeys", f) for f in ("cur_phase", "local", "remote")):
+                    writers.add(b.id)
         pre = []
         for i, t in ds.calls():
             if dec and i != dec[0] and dec[0] in ds.reachable_from(i):
@@ -197,5 +209,35 @@ def run(ctx):
                    "without the second condition a late packet of the previous phase (reordering), or the next genuine packet after one "
                    "forged phase bit, rotates the keys again: the retained key is overwritten and both directions lose sync for good"
                    % (u, ok_phase, [i for i, _ in phase_tests], ok_none, len(none_tests) + len(disc_none)))
+    # ---------------------------------------------------------------- R5
+    up = ctx.anchor("R5", "qbase::packet::keys::OneRttPacketKeys::update")
+    if up:
+        nk = [(i, t) for i, t in up.calls() if re.search(r"next_packet_keys$", callee(t))]
+        tg = call_blocks(up, r"Toggle(<.*>|::<.*>)?::toggle$")
+        rets = up.return_blocks()
+        def written_from_keyset(field, part):
+            ws = [(up, i, j, p, rv, line) for (i, j, p, rv, line) in up.assigns() if place_has_field(p, "OneRttPacketKeys", field)]
+            good = []
+            for (b, i, j, p, rv, line) in ws:
+                srcs = set()
+                for o in rvalue_operands(rv):
+                    for pl in deep_places(up, o, 6):
+                        srcs |= set(place_fields(pl))
+                        for og in up.trace_local(pl[0]):
+                            if og[0] == "call" and re.search(r"next_packet_keys$", callee(og[2])):
+                                srcs.add("<next_packet_keys>")
+                if part in srcs or "<next_packet_keys>" in srcs:
+                    good.append(i)
+            return ws, good
+        wl, gl = written_from_keyset("local", "local")
+        wr_, gr = written_from_keyset("remote", "remote")
+        every_path = lambda blks: bool(blks) and up.must_pass(rets, set(blks))
+        ctx.ob("R5", "%s|installs the next send key" % up.short, len(nk) == 1 and every_path(gl), up.where(),
+               "writes of .local from the key set: %s (every path: %s) — without it the endpoint announces the new key phase but keeps "
+               "encrypting with the previous generation: the peer selects the new key, authentication fails and every 1-RTT packet "
+               "after the first key update is discarded" % (gl, every_path(gl)))
+        ctx.ob("R5", "%s|installs the next receive key" % up.short, len(nk) == 1 and every_path(gr), up.where(),
+               "writes of .remote[..] from the key set: %s (every path: %s)" % (gr, every_path(gr)))
+        ctx.ob("R5", "%s|toggles the key phase" % up.short, every_path(tg), up.where(), "cur_phase.toggle() on every path: %s" % every_path(tg))
     ctx.assume("HeaderProtectionKey::sample_len() == 16 for every QUIC v1 cipher suite (RFC 9001 §5.4)")
     ctx.assume("decrypt_packet returns Ok only if the AEAD tag verifies (rustls/ring contract)")
